@@ -88,8 +88,9 @@ class SymObj:
     """A symbolic object: attribute map plus the repository class it is an instance of."""
 
     def __init__(self, cls: str | None = None, module: str | None = None, attrs: dict | None = None,
-                 label: str = "", open_: bool = False):
+                 label: str = "", open_: bool = False, rest: str = ""):
         self.cls = cls
+        self.rest = rest         # "stale": attributes the pre-state does not declare hold whatever earlier calls left (Stale)
         self.module = module if module is not None else (source.class_module(cls) if cls else None)
         self.attrs = dict(attrs or {})
         self.label = label or (cls or "obj")
@@ -170,8 +171,9 @@ class Stale:
     """State left behind by an earlier call on the same object.  Reading it in a branch or in arithmetic is a
     failed frame obligation (the result would depend on call history)."""
 
-    def __init__(self, label):
+    def __init__(self, label, owner=None):
         self.label = label
+        self.owner = owner       # label of the object whose undeclared attribute this is (stores through it are stores on the owner)
 
     def __repr__(self):
         return f"<stale {self.label}>"
@@ -523,6 +525,10 @@ class Interp:
                             return self.eval(st.value, self.module_env(v.module))
             if v.open:
                 val = sym.real(f"{v.label}.{name}")
+                v.attrs[name] = val
+                return val
+            if v.rest == "stale":
+                val = Stale(f"{v.label}.{name}", owner=v.label)
                 v.attrs[name] = val
                 return val
             raise PyExc("AttributeError", (f"{v.label} has no attribute {name}",))
